@@ -170,6 +170,9 @@ def apply_step(rng, spec, root, notpassed):
             if node.get("kw", {}).get("properties"):
                 choices += ["prop_del", "prop_flip_required", "prop_replace_element",
                             "prop_replace_other_source", "prop_dict_api", "prop_source_assign", "prop_rekey"]
+        if kind in ("Element", "Object") and isinstance(node.get("kw", {}).get("patternProperties"), dict) \
+                and isinstance(getattr(live, "patternProperties", None), dict):
+            choices += ["pattern_dict_api"] * 2
         if kind in ("AnyOf", "OneOf", "AllOf", "Not"):
             choices.append("elements_assign")
         if not choices:
@@ -215,6 +218,46 @@ def apply_step(rng, spec, root, notpassed):
             else:
                 kw[key] = val_spec
             setattr(live, key, live_val)
+        elif step == "pattern_dict_api":
+            # the mapping under `patternProperties` is edited through every part of the dict API, in place
+            held_spec, held_live = kw["patternProperties"], live.patternProperties
+            pattern = rng.choice(sorted(gv.PATTERNS))
+            sub = small_spec(rng)
+            op = rng.choice(["ior", "setdefault", "popitem", "update", "pop", "setitem", "delitem", "clear"])
+            if op == "ior":
+                held_live |= {pattern: gen_dsl.build(sub)}
+                held_spec[pattern] = sub
+            elif op == "setdefault":
+                held_live.setdefault(pattern, gen_dsl.build(sub))
+                held_spec.setdefault(pattern, sub)
+            elif op == "popitem":
+                if not held_live:
+                    continue
+                gone, _ = held_live.popitem()
+                held_spec.pop(gone, None)
+            elif op == "update":
+                held_live.update({pattern: gen_dsl.build(sub)})
+                held_spec[pattern] = sub
+            elif op == "pop":
+                if not held_live:
+                    continue
+                gone = rng.choice(sorted(held_live))
+                held_live.pop(gone)
+                held_spec.pop(gone, None)
+            elif op == "setitem":
+                held_live[pattern] = gen_dsl.build(sub)
+                held_spec[pattern] = sub
+            elif op == "delitem":
+                if not held_live:
+                    continue
+                gone = rng.choice(sorted(held_live))
+                del held_live[gone]
+                held_spec.pop(gone, None)
+            else:
+                held_live.clear()
+                held_spec.clear()
+            if live.patternProperties is not held_live:
+                live.patternProperties = held_live
         elif step == "class_kw":
             key = rng.choice(CLASS_SCALAR + ["additionalProperties"])
             if key == "additionalProperties":
